@@ -279,6 +279,24 @@ def run_pt(sc, sched, canonical=False, want_trace=False):
                    speed_spread=sched["speed_spread"])
     sim = kernel.Sim(sched["seed"] if not canonical else 0, cfg)
     mp = kernel.SimMP(sim)
+    # timed-run progress watch: while run_for is in progress and its deadline has not passed, the main
+    # task must not keep reading the clock without any posterior evaluation happening anywhere
+    watch = dict(deadline=None, idle=0, evals=-1)
+    real_time = sim.time
+
+    def watched_time():
+        if watch["deadline"] is not None and sim.current is sim.main:
+            ev = c.stats["evals_post"]
+            if ev == watch["evals"]:
+                watch["idle"] += 1
+            else:
+                watch["idle"], watch["evals"] = 0, ev
+            if watch["idle"] > 1000 and sim.now < watch["deadline"]:
+                raise seams.BusyWait("%d consecutive clock readings by the main process without a posterior evaluation in any "
+                                     "worker, %.3f simulated s before the deadline" % (watch["idle"], watch["deadline"] - sim.now))
+        return real_time()
+
+    sim.time = watched_time
     N, d = sc["n"], sc["d"]
     temps = [float(t) for t in sc["temps"]]
     out = dict(violations=V, stats=stats, digest=None, timed=False)
@@ -337,7 +355,11 @@ def run_pt(sc, sched, canonical=False, want_trace=False):
                 elif name == "run_for":
                     out["timed"] = True
                     t_call = sim.now
-                    L('run_for', pt.run_for, minutes=op[1], swap_interval=op[2])
+                    watch.update(deadline=sim.now + op[1] * 60.0, idle=0, evals=-1)
+                    try:
+                        L('run_for', pt.run_for, minutes=op[1], swap_interval=op[2])
+                    finally:
+                        watch["deadline"] = None
                     out.setdefault("timed_ops", []).append((op[1] * 60.0, sim.now - t_call))
                     expected = None
                 elif name == "return_chains":
@@ -399,6 +421,8 @@ def run_pt(sc, sched, canonical=False, want_trace=False):
             _viol(V, "liveness.deadlock", str(e))
     except kernel.StepCap as e:
         _viol(V, "liveness.stepcap", str(e))
+    except seams.BusyWait as e:
+        _viol(V, "timed.progress", "ParallelTempering.run_for stopped stepping before its time budget was used up: %s" % e)
     except kernel.Overdue as e:
         _viol(V, "shutdown.bounded", "shutdown() had not returned after 600 simulated seconds (%s); live workers %r"
               % (e, sim.live_workers()))
